@@ -210,6 +210,8 @@ func (d *Document) isWholeDocument(r *lsp.Range) bool {
 	if r.Start.Line != 0 || r.Start.Character != 0 {
 		return false
 	}
+	// The range has been normalized, so it covers the whole document if
+	// it ends at the end of the last line.
 	l, c := d.Len()
-	return r.End.Line == uint32(l) || r.End.Character == uint32(c)
+	return r.End.Line == uint32(l-1) && r.End.Character == uint32(c)
 }
